@@ -495,6 +495,7 @@ func (f *Frame) applyContractFn(fc *FuncContract, callee *ssa.Function, name str
 			}
 		}
 	}
+	heap = f.havocCapturedByImpureClosures(args, heap, st.Heap)
 	var panicked Term
 	if clauses.noPanic || clauses.pure {
 		panicked = False
@@ -1204,6 +1205,26 @@ func (f *Frame) closureSummaries(args []Val, st State) {
 				}
 			}
 		}
+		if gfc != nil && !gfc.Inline && gfc.NoPanic && (gfc.ModAll || len(gfc.Modifies) > 0) {
+			// a closure with side effects that never panics: only the no-panic fact is usable
+			k2 := "cbnp!" + a.T.S
+			if !f.vc.declared[k2] {
+				f.vc.declared[k2] = true
+				var qv2 []Term
+				as2 := []Term{a.T}
+				sorts2 := []string{"Int"}
+				for i, p := range cl.fn.Params {
+					so := f.w.Sorts.SortOf(p.Type())
+					q := Term{fmt.Sprintf("cbn!%d!%d", vc.Ordinal("cbnp"), i), so}
+					qv2 = append(qv2, q)
+					as2 = append(as2, q)
+					sorts2 = append(sorts2, string(so))
+				}
+				pn := App(f.w.AppFun("apppanics", sorts2, SBool, 0), SBool, as2...)
+				vc.Assume(Forall(qv2, Not(pn), []Term{pn}))
+			}
+			continue
+		}
 		if gfc == nil || gfc.Inline || gfc.ModAll || len(gfc.Modifies) > 0 {
 			continue
 		}
@@ -1335,4 +1356,101 @@ func (f *Frame) closureSummariesAll(st State) {
 		vals = append(vals, Val{T: Term{k, SInt}})
 	}
 	f.closureSummaries(vals, st)
+}
+
+// havocCapturedByImpureClosures: a closure passed to a function under contract
+// may be run by it; if the closure writes a variable it captured by reference,
+// that variable has an arbitrary (well-typed) value afterwards.  (The callback
+// model treats callbacks as pure; this keeps the caller's view sound when they
+// are not.)
+func (f *Frame) havocCapturedByImpureClosures(args []Val, h *Heap, pre *Heap) *Heap {
+	for _, a := range args {
+		if a.Loc != nil || len(a.Tup) > 0 {
+			continue
+		}
+		cl, ok := f.closures[a.T.S]
+		if !ok {
+			continue
+		}
+		for _, fv := range cl.fn.FreeVars {
+			pt, isPtr := fv.Type().Underlying().(*types.Pointer)
+			if !isPtr || !closureWrites(cl.fn, fv) {
+				continue
+			}
+			bv, ok := cl.bindings[fv]
+			if !ok {
+				continue
+			}
+			f.vc.Trusted["a closure with side effects on captured variables was passed to a function under contract: the variables are havocked afterwards ("+fnDisplay(cl.fn)+")"] = true
+			nv := f.vc.Fresh("captured."+fv.Name(), f.w.Sorts.SortOf(pt.Elem()))
+			for _, fact := range f.typeFacts(pt.Elem(), nv, h) {
+				f.vc.Assume(fact)
+			}
+			if _, isStruct := pt.Elem().Underlying().(*types.Struct); isStruct && bv.Loc == nil {
+				continue // struct captured by reference: fields are covered by the callee's frame rules
+			}
+			// `x = append(x, ...)` is the only write: the new backing array is the old one or a fresh one
+			if _, isSlice := pt.Elem().Underlying().(*types.Slice); isSlice && closureOnlyAppends(cl.fn, fv) {
+				if ov, ok := f.tryLoad(bv, pt.Elem(), pre); ok {
+					f.vc.Assume(Or(Eq(SArr(nv), SArr(ov)), Gt(SArr(nv), pre.Comp(allocComp, SInt))))
+				}
+			}
+			h = f.store(bv, pt.Elem(), nv, h)
+		}
+	}
+	return h
+}
+
+// closureWrites: the closure (or a closure nested in it) stores through the captured variable.
+func closureWrites(fn *ssa.Function, fv *ssa.FreeVar) bool {
+	for _, b := range fn.Blocks {
+		for _, ins := range b.Instrs {
+			switch x := ins.(type) {
+			case *ssa.Store:
+				if x.Addr == fv {
+					return true
+				}
+			case *ssa.MakeClosure:
+				for _, bnd := range x.Bindings {
+					if bnd == fv {
+						return true
+					}
+				}
+			}
+		}
+	}
+	return false
+}
+
+// closureOnlyAppends: every store to the captured slice variable stores append(<that variable>, ...).
+func closureOnlyAppends(fn *ssa.Function, fv *ssa.FreeVar) bool {
+	for _, b := range fn.Blocks {
+		for _, ins := range b.Instrs {
+			switch x := ins.(type) {
+			case *ssa.Store:
+				if x.Addr != fv {
+					continue
+				}
+				c, ok := x.Val.(*ssa.Call)
+				if !ok {
+					return false
+				}
+				bi, ok := c.Call.Value.(*ssa.Builtin)
+				if !ok || bi.Name() != "append" {
+					return false
+				}
+				ld, ok := c.Call.Args[0].(*ssa.UnOp)
+				if !ok || ld.X != fv {
+					return false
+				}
+			case *ssa.MakeClosure:
+				for _, bnd := range x.Bindings {
+					if bnd == fv {
+						return false
+					}
+				}
+			}
+		}
+	}
+	return true
 }
